@@ -58,28 +58,37 @@ def reqOfJson (j : Json) : R (Req DWire) := do
   let session ← match fieldOpt j "session" with
     | none => pure none
     | some v => do pure (some (← wireOfJson v))
-  pure { ident := ident, accept := accept, session := session, client := (← natF j "client") }
+  let path ← match fieldOpt j "path" with
+    | none => pure "/run".toList
+    | some v => str v
+  pure { ident := ident, accept := accept, session := session, client := (← natF j "client"), path := path }
 
 def actionOfJson (j : Json) : R Action :=
   match j with
   | .str "c" => pure .close
   | .str "u" => pure .use
   | .str "n" => pure .noop
+  | .str "S" => pure .shutdown
   | _ => do
-    let l ← natF j "o"
-    let ttl ← match fieldOpt j "ttl" with
-      | none => pure none
-      | some v => do pure (some (← nat v))
-    pure (.open l ttl)
+    match fieldOpt j "R" with
+    | some v => pure (.reap (← nat v))
+    | none =>
+      let l ← natF j "o"
+      let ttl ← match fieldOpt j "ttl" with
+        | none => pure none
+        | some v => do pure (some (← nat v))
+      pure (.open l ttl)
 
 def errName : MethodErr → String
   | .notOptedIn => "notOptedIn" | .alreadyActive => "alreadyActive" | .draining => "draining" | .sealFailed => "sealFailed"
+  | .notAvailable => "notAvailable"
 
 def actOutToJson : ActOut → Json
   | .opened sid => obj [("opened", ofBytes sid)]
   | .closed hit => obj [("closed", ofBool hit)]
   | .used s => obj [("used", ofOpt ofNat s)]
   | .noop => Json.str "noop"
+  | .env => Json.str "env"
   | .failed e => obj [("failed", Json.str (errName e))]
 
 def outcomeToJson : Outcome → Json
